@@ -168,7 +168,72 @@ def local_def(fnode, name, _depth=0):
         elif isinstance(n, (ast.AugAssign, ast.AnnAssign)) and isinstance(n.target, ast.Name) \
                 and n.target.id == name:
             defs.append(n)
+    if name.startswith("__ret__") and len(defs) > 1:
+        # the None initialisation of a result temporary is not one of the returned values
+        rest = [d for d in defs if not (isinstance(d, ast.Assign) and isinstance(
+            d.value, ast.Constant) and d.value.value is None)]
+        defs = rest or defs
     return defs
+
+
+def _truth_alternatives(f, fg, name, polarity, depth=0):
+    """Alternative guard lists under which local `name` is truthy (falsy for polarity False):
+    for a local defined once by a test, that test; for a result temporary of the inlining pass
+    (assigned once per lowered `return`, in mutually exclusive branches), one alternative per
+    assignment = the guards of the assignment plus the truth of the assigned expression.
+    None when the local is not of these kinds."""
+    ds = [d for d in local_def(f.node, name) if isinstance(d, ast.Assign)]
+    inl = all(True for _ in ds) and any(
+        isinstance(t, ast.Name) and t.id.startswith("__ret__")
+        for d in ds for t in d.targets)
+    if not ds or (len(ds) > 1 and not inl) or depth > 3:
+        return None
+    alts = []
+    for d in ds:
+        v = d.value
+        here = list(fg.atoms(d)) if inl else []
+        if isinstance(v, ast.Constant):
+            if bool(v.value) == polarity:
+                alts.append(here)
+            continue
+        if isinstance(v, ast.Name):
+            sub = _truth_alternatives(f, fg, v.id, polarity, depth + 1)
+            if sub is None:
+                alts.append(here + [("truthy" if polarity else "falsy", v.id, None)])
+            else:
+                alts.extend(here + s_ for s_ in sub)
+            continue
+        if isinstance(v, (ast.Compare, ast.BoolOp, ast.UnaryOp, ast.Call)):
+            alts.append(here + list(fg.norm.conj(v, polarity)))
+            continue
+        return None
+    return alts
+
+
+def expand_alternatives(f, fg, atoms):
+    """The guard list `atoms` as a list of alternative guard lists in which truthy / falsy
+    atoms on boolean locals (see _truth_alternatives) are replaced by what they stand for."""
+    alts = [[]]
+    for a in atoms:
+        sub = None
+        if a[0] in ("truthy", "falsy") and isinstance(a[1], str) and a[1].isidentifier():
+            sub = _truth_alternatives(f, fg, a[1], a[0] == "truthy")
+        if sub is None and a[0] == "or":
+            sub = [list(alt) for alt in a[1]]
+        if sub is None:
+            alts = [x + [a] for x in alts]
+        else:
+            alts = [x + list(s_) for x in alts for s_ in sub][:128]
+    # nested alternatives introduced by the substitution
+    if any(a[0] == "or" for alt in alts for a in alt) and len(alts) < 128:
+        out = []
+        for alt in alts:
+            if any(a[0] == "or" for a in alt):
+                out.extend(expand_alternatives(f, fg, alt))
+            else:
+                out.append(alt)
+        alts = out[:128]
+    return alts
 
 
 def value_is_table_lookup(prog, func, expr, table):
@@ -443,7 +508,8 @@ def rule_F5(ctx):
         if e.path[:3] == ("WS", "staged", "*") and e.path[3:] == ("items",) and e.op == "setitem":
             absent = any(
                 a_[0] == "or" and any(alt and alt[0][0] in ("notin", "falsy") for alt in a_[1])
-                for a_ in own) or any(a_[0] == "notin" and a_[1] == "'items'" for a_ in own)
+                for a_ in own) or any(a_[0] == "notin" and a_[1] == "'items'" for a_ in own) \
+                or any(a_[0] == "falsy" and "items" in str(a_[1]) for a_ in own)
             if absent:
                 res.holds(inst, "initialisation guarded by absence of the item list")
             else:
@@ -588,16 +654,15 @@ def rule_F7(ctx):
         for c in checks:
             if not textually_before(e.node, c):
                 continue
-            atoms = fg.atoms(c)
-            # guarded by nothing but 'status in COMPLETED' / 'status == succeeded' (and early
-            # exits that precede the assignment): the property only forbids *succeeding*
-            extra = [a for a in atoms if not (
-                (a[0] == "in" and isinstance(a[2], frozenset) and "succeeded" in a[2])
-                or (a[0] == "==" and a[2] == "succeeded"))]
+            # the check must run whenever the assignment made the workflow succeeded: some
+            # alternative of its guard consists only of conditions that hold for status ==
+            # succeeded, of the assignment's own preconditions, and of 'status changed'
             pre = fg.atoms(e.node)
-            extra = [a for a in extra if a not in pre and not _is_changed_guard(a)]
-            if not extra:
-                ok = True
+            for atoms in expand_alternatives(e.func, fg, fg.atoms(c)):
+                extra = [a for a in atoms if not _holds_for_succeeded(a)]
+                extra = [a for a in extra if a not in pre and not _is_changed_guard(a)]
+                if not extra:
+                    ok = True
         if ok:
             res.holds(inst)
         else:
@@ -732,6 +797,21 @@ def rule_F11(ctx):
     if not n:
         raise AnalysisError("request_workflow_rerun no longer sets the status to resuming")
     return res
+
+
+def _holds_for_succeeded(a):
+    """The atom is a condition on a status that is true when that status is 'succeeded'."""
+    if "status" not in str(a[1]):
+        return False
+    if a[0] == "==":
+        return a[2] == "succeeded"
+    if a[0] == "!=":
+        return isinstance(a[2], str) and a[2] != "succeeded"
+    if a[0] == "in" and isinstance(a[2], frozenset):
+        return "succeeded" in a[2]
+    if a[0] == "notin" and isinstance(a[2], frozenset):
+        return "succeeded" not in a[2]
+    return False
 
 
 def _is_changed_guard(a):
